@@ -52,7 +52,7 @@ _STATS = re.compile(r"^(\d+) states generated, (\d+) distinct states found")
 _DEPTH = re.compile(r"^The depth of the complete state graph search is (\d+)")
 _VIOL = re.compile(r"^Error: (?:Invariant|Action property|Temporal property|Property) (\S+) is violated")
 _VIOL2 = re.compile(r"^Error: Temporal properties were violated")
-_COV = re.compile(r"^<(\w+) line \d+, col \d+ to line \d+, col \d+ of module (\w+)>: (\d+):(\d+)")
+_COV = re.compile(r"^<(\w+) line \d+, col \d+ to line \d+, col \d+ of module (\w+)(?: \([\d ]+\))?>: (\d+):(\d+)")
 _SIMSTATS = re.compile(r"^The number of states generated: (\d+)")
 
 
